@@ -189,7 +189,10 @@ OptRecOf(oi) == [mov |-> (oi \div 4), swap |-> ((oi \div 2) % 2), nobase |-> (oi
 SameOn(dims, a, b) == \A d \in dims : OptRecOf(a)[d] = OptRecOf(b)[d]
 Sens    == Ev.e = "Sens" /\
            Advance(inst, IF \E a \in 0..11, b \in 0..11 : SameOn({Ev.dims[k] : k \in 1..Len(Ev.dims)}, a, b) /\ CODES[Ev.key][a + 1] # CODES[Ev.key][b + 1]
-                         THEN "C12:option-dimension-changes-a-line-it-does-not-govern" ELSE "")
+                         THEN "C12:option-dimension-changes-a-line-it-does-not-govern"
+                         \* the options choose between encodings, never whether a line is accepted (a rejected line has the empty code)
+                         ELSE IF \E a \in 0..11, b \in 0..11 : CODES[Ev.key][a + 1] = <<>> /\ CODES[Ev.key][b + 1] # <<>>
+                         THEN "C11:option-setting-decides-whether-a-line-is-accepted" ELSE "")
 
 Next == l <= Len(Tr) /\ (Sens \/ CountNull \/ Create \/ Destroy \/ Reset \/ Fault \/ Other \/ BinFile \/ Skip2 \/ Opt \/ SetChunk \/ SetOffset \/ Probe \/ Exec \/ Asm \/ Count)
 Spec == Init /\ [][Next]_vars
